@@ -19,7 +19,7 @@ from ..seams.simaddr import SimAddresses
 
 QUERIES = ["symmetric_difference", "false_positives_and_negatives", "weighted_robinson_foulds_distance", "euclidean_distance",
            "find_missing_bipartitions", "Tree.symmetric_difference", "unweighted_robinson_foulds_distance"]
-EDITS = ["rotate", "reseed", "collapse", "resolve", "spr", "set_length", "clear_length", "scale", "encode", "copy", "nni", "nudge_length", "tiny_length", "root_length", "unifurcation"]
+EDITS = ["rotate", "reseed", "collapse", "resolve", "spr", "set_length", "clear_length", "scale", "encode", "copy", "nni", "nudge_length", "tiny_length", "root_length", "unifurcation", "graft_all", "prune_all"]
 
 
 def _rel(a, b, tol=1e-9):
@@ -60,7 +60,13 @@ class C04(Machine):
             else:
                 steps.append({"op": "query", "kind": rng.choice(QUERIES), "a": rng.randrange(3), "b": rng.randrange(3),
                               "foreign": rng.random() < 0.05, "axioms": rng.random() < 0.3})
-        return {"config": {"labels": labs, "rooted": rooted, "addr_seed": rng.getrandbits(32)}, "initial": {"trees": trees}, "steps": steps}
+        # taxa of the namespace that no tree carries at first (before and after the leaf taxa in namespace order): the
+        # leaf set can grow and shrink during the history ('graft_all' / 'prune_all' keep it the same on all three trees)
+        nf = rng.choice([0, 0, 1, 2, 3])
+        nb = rng.choice([0, 0, 1])
+        return {"config": {"labels": labs, "rooted": rooted, "addr_seed": rng.getrandbits(32),
+                           "spare_front": ["f%d" % i for i in range(nf)], "spare_back": ["z%d" % i for i in range(nb)]},
+                "initial": {"trees": trees}, "steps": steps}
 
     def simplify(self, plan):
         import copy
@@ -92,11 +98,12 @@ class C04(Machine):
 
     def _run(self, plan, rec):
         cfg = plan["config"]
-        ns = dendropy.TaxonNamespace(cfg["labels"])
+        all_labels = cfg.get("spare_front", []) + cfg["labels"] + cfg.get("spare_back", [])
+        ns = dendropy.TaxonNamespace(all_labels)
         self.ns = ns
         self.rooted = cfg["rooted"]
         trees = [gen.build_tree(dendropy, sp, ns, is_rooted=cfg["rooted"]) for sp in plan["initial"]["trees"]]
-        fns = dendropy.TaxonNamespace(cfg["labels"])
+        fns = dendropy.TaxonNamespace(all_labels)
         foreign = gen.build_tree(dendropy, plan["initial"]["trees"][0], fns, is_rooted=cfg["rooted"])
         last_edit = None
         for i, st in enumerate(plan["steps"]):
@@ -131,6 +138,27 @@ class C04(Machine):
         inner = [nd for nd in internals if nd._parent_node is not None]
         k, k2 = st["k"], st["k2"]
         kind = st["kind"]
+        if kind in ("graft_all", "prune_all"):
+            # the shared leaf set changes: the same taxon joins / leaves all three trees (each at a place of its own)
+            on_leaves = [nd.taxon for nd in nodes if not nd._child_nodes and nd.taxon is not None]
+            if kind == "graft_all":
+                unused = [tx for tx in self.ns if not any(tx is u for u in on_leaves)]
+                if not unused:
+                    return False
+                tx = unused[k % len(unused)]
+                for j, tr in enumerate(trees):
+                    ints = [nd for nd in rawtree.raw_nodes(tr) if nd._child_nodes]
+                    nd = ints[(k2 + j) % len(ints)]
+                    ln = st["x"] if nd._child_nodes[0]._edge.length is not None else None
+                    nd.new_child(taxon=tx, edge_length=ln)
+                return True
+            if len(on_leaves) <= 4:
+                return False
+            order = sorted(on_leaves, key=lambda tx: list(self.ns).index(tx))
+            tx = order[0] if k % 3 == 0 else order[k2 % len(order)]
+            for tr in trees:
+                tr.prune_taxa([tx], update_bipartitions=False, suppress_unifurcations=True)
+            return True
         if kind == "rotate":
             nd = internals[k % len(internals)]
             ch = list(nd._child_nodes)
